@@ -86,6 +86,9 @@ def gen_lstsq(rng, m=None, n=None):
         A = [[(d[i] if i == j else 0.0) for j in range(n)] for i in range(m)]
         exact_s = [float(v).hex() for v in d]
     b = [rng.gauss(0, 1) * rng.choice([1, 1, 1e3, 1e-3]) for _ in range(m)]
+    if rng.random() < 0.15:       # a block of right-hand sides (m, p), the numpy.linalg.lstsq convention
+        p = rng.choice([1, 2, 3, k])
+        b = [[rng.gauss(0, 1) for _ in range(p)] for _ in range(m)]
     rcond = rng.choice(RCONDS)
     if kind == "tie" and rng.random() < 0.7:
         j = rng.randrange(k)
@@ -143,6 +146,46 @@ def gen_problem(rng, kind, n=None, m=None):
     return c
 
 
+SEQ_RCONDS = [None, None, None, 1e-3, 0.05, 0.3, 0.75]
+
+
+def gen_sequence(rng):
+    """one optimizer, several calls with per-call rcond / sing_val_cutoff / broyden"""
+    n = rng.randint(2, 4)
+    c = gen_problem(rng, "newton", n=n)
+    c["kind"] = "sequence"
+    c["tol"] = float(1e-6).hex()
+    k = n
+
+    def args(trunc=None):
+        if trunc is True:
+            if rng.random() < 0.6:
+                return None, rng.randint(1, k - 1)
+            return rng.choice([0.3, 0.75, 0.75]), rng.choice([None, None, k])
+        if trunc is False:
+            return None, None
+        return rng.choice(SEQ_RCONDS), rng.choice([None, None, None] + list(range(1, k + 1)) + [k + 2])
+
+    def call(api=None, trunc=None):
+        api = api or rng.choice(["step", "step", "step", "solve", "solve", "solver.step"])
+        rc, cut = args(trunc)
+        nst = rng.choice([1, 1, 2]) if api != "solve" else rng.choice([2, 3, 4])
+        return {"api": api, "n": nst, "rcond": None if rc is None else float(rc).hex(), "cutoff": cut, "broyden": rng.random() < 0.3}
+
+    calls = []
+    pat = rng.random() < 0.65
+    if pat:   # an earlier truncating call (possibly a failing solve), maybe back to the start, then a plain call
+        calls.append(call(rng.choice(["step", "step", "solve", "solver.step"]), trunc=True))
+        if rng.random() < 0.5:
+            calls.append({"api": "reload0", "n": 0, "rcond": None, "cutoff": None, "broyden": False})
+        calls.append(call(rng.choice(["step", "solve", "solve", "solver.step"]), trunc=False))
+    for _ in range(rng.randint(0 if pat else 2, 3)):
+        calls.append({"api": "reload0", "n": 0, "rcond": None, "cutoff": None, "broyden": False} if rng.random() < 0.12 else call())
+    c["calls"] = calls
+    c["plain_after_truncating"] = pat
+    return c
+
+
 def grid_cases(rng):
     """every shape 1..6 x 1..6 at least twice for lstsq"""
     return [gen_lstsq(rng, m, n) for m in range(1, 7) for n in range(1, 7) for _ in range(2)]
@@ -174,6 +217,7 @@ def gen_all(rng, n_lstsq, n_other):
     cases = grid_cases(rng) + [gen_lstsq(rng) for _ in range(n_lstsq)]
     for kind in ("newton", "roundtrip", "view"):
         cases += [gen_problem(rng, kind) for _ in range(n_other)]
+    cases += [gen_sequence(rng) for _ in range(5 * n_other)]
     return cases
 
 
@@ -183,8 +227,12 @@ def run(ctx):
                 "1e-8, 1e-3, .05, .3, .75} at the call and {default, None, 1e-6, .2} at construction, sing_val_cutoff None/1..k/k+2 at both; "
                 "newton/solve: consistent linear problems n<=4, m<=6, condition <= 100 (incl. knob and target weights), wide limits, steps 1e-6, "
                 "with and without Broyden; round trips: weights 1e-3..1e3, finite limits, 5 scaled ranges; views: linear and A x + 0.1 sin(A x), "
-                "all four (return_scalar, rescale_x) combinations vs central differences. non-trivial = lstsq case where the retained set is a "
-                "proper non-empty subset of the singular values; distinct by (matrix, settings)")
+                "all four (return_scalar, rescale_x) combinations vs central differences; sequences: ONE optimizer (linear, n 2..4, tol 1e-6), 2-6 calls "
+                "of Optimize.step / solve / JacobianSolver.step / reload(0) with per-call rcond in {None, 1e-3, .05, .3, .75}, sing_val_cutoff "
+                "None/1..k/k+2, broyden, n_steps 1..4; 65% start with a truncating call (also a failing, restoring solve) followed by a plain one; "
+                "after every call the knobs (and success/failure of solve) are judged against least-squares steps computed from that call's "
+                "arguments only. non-trivial = lstsq case where the retained set is a proper non-empty subset of the singular values, or a "
+                "sequence with a judged plain call after a truncating one; distinct by (matrix, settings)")
     proof_ok = vlib.standard_proof_part(ctx, "props/C16.v", allowed_axioms=(), translators=["opt"])
     code = extracted_code()
     n1, n2 = ctx.pick(700, 60000), ctx.pick(120, 6000)
@@ -206,6 +254,20 @@ def run(ctx):
             if "keep" in o and 0 < len(o["keep"]) < ksz and not o.get("ambiguous_threshold"):
                 trunc += 1
                 ctx.nontrivial.add(json.dumps([c["A"], c["rcond"], c["cutoff"], c["ctor_rcond"], c["ctor_cutoff"]]))
+    seq = {"cases": 0, "judged_calls": 0, "not_predicted_stops": 0, "plain_after_truncating_judged": 0, "expected_failing_solves": 0, "worst_err": 0.0}
+    for c, r in zip(cases, results):
+        if c["kind"] != "sequence":
+            continue
+        o = r["obs"]
+        seq["cases"] += 1
+        seq["judged_calls"] += o.get("judged_calls", 0)
+        seq["not_predicted_stops"] += "stopped_at" in o
+        for cl in o.get("calls", []):
+            seq["expected_failing_solves"] += bool(cl.get("expected_failure"))
+            seq["worst_err"] = max(seq["worst_err"], cl.get("err", 0.0))
+        if c.get("plain_after_truncating") and "stopped_at" not in o and o.get("judged_calls", 0) >= 2:
+            seq["plain_after_truncating_judged"] += 1
+            ctx.nontrivial.add(json.dumps([c["A"], c["calls"]]))
     worst = {}
     for c, r in zip(cases, results):
         for k, v in r["obs"].items():
@@ -218,19 +280,41 @@ def run(ctx):
                                      "lstsq_truncating_cases": trunc, "lstsq_threshold_ambiguous_skipped": amb,
                                      "exact_tie_cases_evaluated": sum(1 for c, r in zip(cases, results) if c["kind"] == "lstsq" and c["exact_s"]
                                                                       and not r["obs"].get("ambiguous_threshold")),
-                                     "worst_observed": worst}
+                                     "sequences": seq, "worst_observed": worst}
     ctx.samples = [{"case": {k: cases[i][k] for k in ("kind", "shape")}, "obs": {k: v for k, v in results[i]["obs"].items() if k not in ("x", "s")}}
                    for i in (0, len(cases) // 3, len(cases) - 1)]
     ctx.assumptions.append("floating point (numpy.linalg.svd, BLAS products, finite-difference rounding) is validated on the generated cases, not proved; "
                            "the Coq theorems are exact-arithmetic statements over an arbitrary real field")
     ctx.obligations.append(("oracle (numerical, validated): svd factors, lstsq = min-norm solution on the retained singular values (independent "
-                            "reference and numpy pinv), first step lands / solve() with and without Broyden, round trips, view Jacobians",
+                            "reference and numpy pinv), first step lands / solve() with and without Broyden, round trips, view Jacobians, "
+                            "call sequences on one optimizer judged per call from that call's rcond / sing_val_cutoff / broyden only",
                             not orc, f"{len(orc)} failing of {len(cases)}"))
     ctx.obligations.append(("correspondence: the extracted ASTs (GenOpt), interpreted with numpy, reproduce SVD.lstsq and the scaling formulas",
                             code is not None and not trans and not any(not r["obs"].get("translator_agrees", True) for r in results),
                             "translator failed" if code is None else f"{len(trans)} differing"))
 
+    def shrink_sequence(case, res):
+        """keep the calls up to the failing one, then drop earlier calls that are not needed"""
+        ci = res["fails"][-1][-1] if res["fails"] and isinstance(res["fails"][-1][-1], int) else len(case["calls"]) - 1
+        best, best_r = dict(case, calls=case["calls"][:ci + 1]), res
+        r = run_cases([best], None)[0]
+        if not r["fails"]:
+            return case, res
+        best_r = r
+        j = 0
+        while j < len(best["calls"]) - 1 and len(best["calls"]) > 2:
+            cand = dict(best, calls=best["calls"][:j] + best["calls"][j + 1:])
+            r = run_cases([cand], None)[0]
+            if r["fails"] and all(f[0] == "sequence" for f in r["fails"]):
+                best, best_r = cand, r
+            else:
+                j += 1
+        return best, best_r
+
     def report(i, cs, rs, extra=None):
+        if cs[i]["kind"] == "sequence":
+            sc, sr = shrink_sequence(cs[i], rs[i])
+            cs, rs, i = [sc], [sr], 0
         payload = {"kind": "oracle", "case": cs[i], "observed": rs[i]["obs"], "failed_checks": rs[i]["fails"],
                    "how_to_replay": "./check C16 --replay <this file>"}
         if extra:
